@@ -88,11 +88,16 @@ def step_relations(ctx):
 def specs(tier):
     static = A.simplicial_static() + A.simplicial_deviant()
     gens = [A.gen_simplex_removals]
-    depth = 3 if tier == "quick" else 4
-    devb = 1 if tier == "quick" else 2
-    return [explore.Spec("simplicialcomplex-histories", SEEDS, static, gens,
-                         invariants=[oracles.undirected_incidence, oracles.simplicial_closure],
-                         steps=[step_relations], depth=depth, dev_bound=devb, namespace=histcheck.base_namespace)]
+    inv = [oracles.undirected_incidence, oracles.simplicial_closure]
+    if tier == "quick":
+        return [explore.Spec("simplicialcomplex-histories", SEEDS, static, gens, invariants=inv, steps=[step_relations],
+                             depth=3, dev_bound=1, namespace=histcheck.base_namespace)]
+    return [
+        explore.Spec("simplicialcomplex-histories", SEEDS, static, gens, invariants=inv, steps=[step_relations],
+                     depth=3, dev_bound=2, namespace=histcheck.base_namespace),
+        explore.Spec("simplicialcomplex-histories-deep", SEEDS[:2], A.simplicial_trim(), gens, invariants=inv,
+                     steps=[step_relations], depth=4, dev_bound=2, namespace=histcheck.base_namespace),
+    ]
 
 
 def run(tier, ev):
